@@ -108,8 +108,10 @@ def run(ctx):
         cases.append({'arch': name, 'conn': None, 'kind': 'prebanner', 'seg': 1, 'seed': 2, 'phase': 'all', 'msg': None, 'label': None})
         cases.append({'arch': name, 'conn': None, 'kind': 'prebanner', 'seg': 4, 'seed': 3, 'phase': 'all', 'msg': None, 'label': None})
         cases.append({'arch': name, 'conn': None, 'kind': 'segment1', 'seg': 7, 'seed': 4, 'phase': 'all', 'msg': None, 'label': None})
+        if 'gex' in arch[name]:
+            cases.append({'arch': name, 'conn': None, 'kind': 'gex-huge-modulus', 'seg': 0, 'seed': 5, 'phase': 'probe', 'msg': None, 'label': None})
     if q:
-        must = [c for c in cases if c['kind'] in ('segment1', 'debug-in-probes', 'prebanner')]
+        must = [c for c in cases if c['kind'] in ('segment1', 'debug-in-probes', 'prebanner', 'gex-huge-modulus')]
         rest = [c for c in cases if c not in must]
         cases = must + rng.sample(rest, min(len(rest), 330))
     else:
@@ -133,6 +135,8 @@ def run(ctx):
             faults = [P.Fault(c['conn'], c['msg'], fk, arg, then)]
         elif c['kind'] == 'debug-in-probes':
             spec['debug_before_reply'] = 2
+        elif c['kind'] == 'gex-huge-modulus':
+            spec['gex'] = lambda mn, pf, mx: 'huge'
         elif c['kind'] == 'prebanner':
             spec['pre'] = [b'Welcome to host', b'', b'   ', b'second line \xff\xfe']
         srv = P.new_ssh2_server(spec, faults=faults, segment=c['seg'], stall_limit=4.0)
@@ -202,9 +206,11 @@ def run(ctx):
     for prod in ('OpenSSH_', 'OpenSSH-', 'dropbear_', 'libssh_', 'libssh-', 'PuTTY_Release_', 'tinyssh_', 'RomSShell_', 'Cisco-', 'mpSSH_', 'lancom', 'Weird_'):
         for ver in ('8..9', '8.9.', '.8.9', '8', '8.', '0', '00.00', '9' * 40, '8.9p', '8.9p0', '8.9p1p2', '8.9-', '8.9..p1', '1e3', '8.9 .1', '\u0663.4', '8.9\t', '-1.0', '', '2020..81', '0.9..6', 'v8.9', '8,9'):
             odd.append('SSH-2.0-%s%s' % (prod, ver))
+    odd += ['SSH-2.0-OpenSSH_' + '9' * 5000, 'SSH-2.0-dropbear_2020.' + '1' * 4400, 'SSH-2.0-libssh_0.' + '0' * 6000 + '.1', 'SSH-2.0-OpenSSH_8.9p' + '7' * 5000]
+    odd_big = list(odd[-4:])
     odd += ['SSH-2.0-', 'SSH-2.0--', 'SSH-2.0-OpenSSH', 'SSH-2.0-OpenSSH_', 'SSH-1.99-OpenSSH_8..9', 'SSH-2.0-OpenSSH_8.9 ' + 'c' * 300, 'SSH-2.0-OpenSSH_7.4p1 Debian-10+deb9u7..', 'SSH-2.0-dropbear', 'SSH-2.0-libssh']
     if q:
-        odd = rng.sample(odd, 60) + ['SSH-2.0-OpenSSH_8..9', 'SSH-2.0-dropbear_2020..81', 'SSH-2.0-libssh_0.9..6']
+        odd = rng.sample(odd, 60) + ['SSH-2.0-OpenSSH_8..9', 'SSH-2.0-dropbear_2020..81', 'SSH-2.0-libssh_0.9..6'] + odd_big
 
     def do_odd(z, b):
         srv = P.new_ssh2_server(dict(banner=b.encode('utf-8'), kex=['curve25519-sha256'], key=['ssh-ed25519', 'rsa-sha2-512'], enc=['aes256-ctr', 'aes128-cbc'], mac=['hmac-sha2-256', 'hmac-sha1'],
